@@ -967,6 +967,8 @@ def check(run: common.Run):
         corpus += fam if not quick else fam[::2]
         fam2 = semicolon_family()
         corpus += fam2 if not quick else fam2[::2]
+        fam3 = continued_literal_family()
+        corpus += fam3 if not quick else fam3[::2]
         pr.record_frames = True
         n_e2e = 0
         post_seen, pitems, pinfo = set(), [], []
@@ -1342,6 +1344,34 @@ def restore_family():
                 if k % 3 == 0:
                     res.append(f"import sys\n\nW = sys.argv\nprint(W)\n\n\ndef _f{k}(a):\n    if a:\n        {trig}\n"
                                f"    return [a, {p}, {f}]\n\n\nprint(_f{k}(W))\n")
+    return res
+
+
+def continued_literal_family():
+    """Deterministic module family (seed C11-c): single-quoted str / bytes / f-string literals continued over several
+    lines with backslash-newline, the continuation lines indented by 0..14 blanks (the blanks are CONTENT), with no
+    triple quote in the statement, in statements that black re-spells (single quotes, spacing, long lines), at module
+    level and nested.  Line-based tools (compactify's dedent of over-indented lines) see these lines as code."""
+    res = []
+    k = 0
+    for pre, q in (("", "'"), ("", '"'), ("b", "'"), ("f", "'"), ("rb", '"')):
+        for ind1, ind2 in ((14, 4), (5, 0), (0, 9), (8, 8), (2, 12)):
+            k += 1
+            esc = "\\n" if "r" not in pre else ""
+            fld = "{W[0]!r}" if "f" in pre else "x"
+            lit = (f"{pre}{q}usage: prog {fld}{esc}\\\n{' ' * ind1}--verbose   say more{esc}\\\n"
+                   f"{' ' * ind2}--quiet     say less{q}")
+            for shape in range(3):
+                if (k + shape) % 2 and pre not in ("", "f"):
+                    continue
+                if shape == 0:      # single quotes / spacing make black re-spell the statement
+                    stmt = f"U{k} = {lit}\nprint(W,U{k}, 'single quoted')\n"
+                elif shape == 1:    # a call that is too long for every line length
+                    stmt = (f"print(W, {lit}, 'a trailing argument that makes the statement longer than any limit', "
+                            f"'another one that is quite long as well', W)\n")
+                else:               # nested statement
+                    stmt = f"def _g{k}(a):\n    if a:\n        return [a, {lit}, 'single']\n    return a\n\n\nprint(_g{k}(W))\n"
+                res.append(f"import sys\n\nW = sys.argv\nprint(W)\n{stmt}")
     return res
 
 
